@@ -72,11 +72,19 @@ async fn episode(p: &EpParams, mt: bool) -> EpReport {
         }
     }
     w.settle().await;
+    // one episode in eight: the topic is already gone when the burst starts (the target lives on,
+    // detached) and the burst contains two or three crossing deletes of the target
+    let topic_gone_first = rng.chance(1, 8);
+    if topic_gone_first {
+        let _ = c0.delete_topic(&t).await;
+        w.settle().await;
+        rep.inc("bursts_on_a_detached_subscription");
+    }
 
     let hooks_before: u64 = hook_count("sub.mailbox_full") + hook_count("topic.mailbox_full");
 
     let n_burst = rng.range(17, 60);
-    let with_delete_sub = rng.chance(1, 2);
+    let with_delete_sub = rng.chance(1, 2) || topic_gone_first;
     let with_delete_topic = rng.chance(1, 6);
     let with_create = rng.chance(1, 3);
     let n_publish = rng.range(0, 3);
@@ -88,7 +96,7 @@ async fn episode(p: &EpParams, mt: bool) -> EpReport {
     if with_delete_sub {
         specials.push("DeleteSub");
         // sometimes two (or three) deletes of the same subscription cross each other
-        if rng.chance(1, 3) {
+        if rng.chance(1, 3) || topic_gone_first {
             specials.push("DeleteSub");
             if rng.chance(1, 3) {
                 specials.push("DeleteSub");
@@ -234,7 +242,7 @@ async fn episode(p: &EpParams, mt: bool) -> EpReport {
         // half-way through the blocking pulls' wait: wake-ups that bring nothing (empty publishes)
         // must not extend the 5-minute limit
         w.advance(Duration::from_secs(150)).await;
-        if !with_delete_topic {
+        if !with_delete_topic && !topic_gone_first {
             for _ in 0..4 {
                 // (bounded: if the topic is wedged this call would never return, and the wedge is
                 // reported by the pending burst calls below)
@@ -294,7 +302,7 @@ async fn episode(p: &EpParams, mt: bool) -> EpReport {
                     let _ = cx.publish(&t2, &[Msg::tagged("probe")]).await;
                 }
             })));
-            probe_publish_expected_ok = !with_delete_topic;
+            probe_publish_expected_ok = !with_delete_topic && !topic_gone_first;
             for s in subs.iter() {
                 let cx = cx.clone();
                 let s = s.clone();
